@@ -2,7 +2,7 @@
   Verilog engine — proof side, part 53 (assign statements): a whole hierarchical file whose work modules may contain
   assigns through the real `elabDesign` (`elabDesign_hierA`, pure table `buildHierA`); non-vacuity `exHierA_builds`.
 -/
-import Spydr.Verilog.RoundTripAsgB
+import Spydr.Verilog.RoundTripAsgV
 set_option maxHeartbeats 1600000
 namespace Spydr.Verilog.Elab
 open Spydr.Verilog
@@ -11,11 +11,11 @@ open Spydr.Verilog
 
 inductive WAnyA
   | work (m : WModA)
-  | leaf (lf : WLeaf)
+  | leaf (lf : WLeafX)
 
 def WAnyA.name : WAnyA → String
   | .work m => m.base.name
-  | .leaf lf => lf.name
+  | .leaf lf => lf.base.name
 
 def WAnyA.toModule : WAnyA → Module
   | .work m => m.toModule
@@ -33,8 +33,8 @@ def lateStepA (tbl : List Def) (n : Nat) (t : String) (M : WAnyA) : Option (List
           r.2.1.drop (tbl.filter (fun x => x.name != m.base.name)).length, r.2.2.1)
       | none => none
     | .leaf lf =>
-      match buildLeaf L n lf.ports with
-      | some r => some (tbl.map (fun x => if x.name == lf.name then r.1 else padOpsD x lf.name r.2.2), r.2.1)
+      match buildLeafX L n lf with
+      | some r => some (tbl.map (fun x => if x.name == lf.base.name then r.1 else padOpsD x lf.base.name r.2.2), r.2.1)
       | none => none
 
 def foldLateA : List Def → Nat → String → List WAnyA → Option (List Def × Nat)
@@ -74,20 +74,20 @@ theorem late_stepA (s : St) (t : String) (M : WAnyA) (tbl' : List Def) (n' : Nat
         rw [g9, this, List.drop_left]
     | leaf lf =>
       simp only at h
-      cases hb : buildLeaf L s.next lf.ports with
+      cases hb : buildLeafX L s.next lf with
       | none => simp [hb] at h
       | some r =>
         obtain ⟨L', n1, ops⟩ := r
         simp only [hb, Option.some.injEq, Prod.mk.injEq] at h
         obtain ⟨e1, e2⟩ := h
-        have hR : RowsFull s lf.name L.ports.length := by
+        have hR : RowsFull s lf.base.name L.ports.length := by
           have := rowsFull_of_wf hwf hLm
           rw [hLn] at this; exact this
-        obtain ⟨g1, g2, g3, g4, g5⟩ := elabModule_leaf s lf L L' n1 ops hL hR hb
+        have g1 := elabModule_leafX s lf L L' n1 ops hL hR hb
         refine ⟨_, g1, elabModule_wf s _ _ hwf g1, ?_, by rw [← e2]; rfl, ?_, ?_⟩
-        · rw [← e1]; exact defs_put_padOps s lf.name L' n1 ops
-        · show (padOps s lf.name ops).top = _; rw [(padOps_defs lf.name ops s).2.2.1]; exact htop
-        · show (padOps s lf.name ops).pending = _; rw [(padOps_defs lf.name ops s).2.2.2.2]
+        · rw [← e1]; exact defs_put_padOps s lf.base.name L' n1 ops
+        · show (padOps s lf.base.name ops).top = _; rw [(padOps_defs lf.base.name ops s).2.2.1]; exact htop
+        · show (padOps s lf.base.name ops).pending = _; rw [(padOps_defs lf.base.name ops s).2.2.2.2]
 
 theorem late_foldA (t : String) : ∀ (Ms : List WAnyA) (s : St) (tbl' : List Def) (n' : Nat), TableWF s → s.top = some t →
     foldLateA s.defs s.next t Ms = some (tbl', n') →
@@ -174,7 +174,7 @@ def exHierMsA : List WAnyA :=
      [⟨"r", "wire", none, []⟩, ⟨"q", "wire", none, []⟩, ⟨"p", "wire", some (1, 0), []⟩],
      [⟨"g0", "LUT1", [], [], [("I0", .atom (.bit "p" 0)), ("O", .atom (.id "r"))]⟩]⟩,
      [(.id "q", .id "r")], [("DEPTH", "4'h3"), ("MODE", "\"fast\"")]⟩,
-   .leaf ⟨"LUT1", [⟨"I0", .inp, none, []⟩, ⟨"O", .out, none, []⟩]⟩]
+   .leaf ⟨⟨"LUT1", [⟨"I0", .inp, none, []⟩, ⟨"O", .out, none, []⟩]⟩, [("cell", none)], [("INIT", "2'h1")]⟩]
 
 theorem exHierA_builds : (buildHierA exHierTopA exHierMsA).isSome = true := by decide
 end Spydr.Verilog.Elab
